@@ -85,6 +85,12 @@ var frameKinds = []frameKind{
 	{"main", "worker", "/home/u/b/a.go", 10, 1},
 	{"main", "worker", "/home/u/a/b.go", 20, 1},
 	{"main", "worker", "/home/u/a/a.go", 20, 1},
+	// source paths with fewer than two slashes (no last-directory part), next to paths whose
+	// last-directory order and whole-path order disagree
+	{"main", "worker", "m.go", 20, 1},
+	{"main", "worker", "z/a/x.go", 20, 1},
+	{"main", "worker", "b/b/x.go", 20, 1},
+	{"main", "worker", "_cgo_gotypes.go", 20, 1},
 }
 
 func mkCall(k frameKind, args []MArg, elided bool) MCall {
@@ -195,6 +201,16 @@ func GenSnapshot(r *Rng, maxG int) []MG {
 	}
 	for i := range gs {
 		gs[i] = MG{Sig: fams[r.Intn(nf)].Draw(r, spread), ID: ids[i] + 1, First: i == first}
+	}
+	if r.Chance(1, 6) {
+		// goroutine 0 is a legal id (the scheduler's g0 in a GOTRACEBACK=system dump, printed first)
+		k := 0
+		if first >= 0 && r.Bool() {
+			k = first
+		} else {
+			k = r.Intn(n)
+		}
+		gs[k].ID = 0
 	}
 	return gs
 }
